@@ -3,7 +3,7 @@ from .. import histgen, tracker, model
 from ..runner import Prop, Stage, Result
 
 CHECKS = [tracker.check_lifetimes]
-PROFILE = dict(reuse=0.7, server_reuse=0.6, weights=dict(repeat=4, newer=4, midsession=5, server_retype=6, delete=24, bind=12, message=36, server_event=18, deep=4, sync=6, long_line=2))
+PROFILE = dict(reuse=0.7, server_reuse=0.6, weights=dict(repeat=4, newer=4, midsession=5, server_retype=6, delete=24, bind=12, message=36, server_event=18, deep=4, sync=6, long_line=2, dead_creates=4))
 
 
 def nontrivial(specs):
